@@ -5,8 +5,8 @@
 # usage: tools/mutant_lab.sh init            (creates/refreshes /tmp/mlab from /verif and the worktree from /repo HEAD)
 #        tools/mutant_lab.sh run <patch> <ID>...   -> DETECTED / MISSED / MACHINERY lines
 set -u
-LAB=/tmp/mlab
-WT=/tmp/wt/lab
+LAB=${MLAB_DIR:-/tmp/mlab}
+WT=${MLAB_WT:-/tmp/wt/lab}
 cmd=$1; shift
 case $cmd in
  init)
